@@ -366,7 +366,8 @@ static double numGradErr(const Problem& P, const RunCfg& cfg, const double* x) {
 // Bound on ||x_ret - x*|| implied by the algorithm's stopping rule with the tolerance given (strictly convex quadratic,
 // smallest/largest eigenvalue mu/L):
 //  LBFGS (lbfgs.cpp, "sherm 100303"): max_i |g_i| max(1,|x_i|)/max(0.1,|f|) <= tol  =>  ||g|| <= sqrt(n) tol max(0.1,|f|),  ||x-x*|| <= ||g||/mu.
-//  LBFGSB: ||x-P(x-g)||_inf <= pgtol (=tol)  =>  ||x-x*|| <= (1+L)/mu * sqrt(n) pgtol   [error bound for strongly convex problems],
+//  LBFGSB (lbfgsb.cpp projgr_, "sherm 100303"): max_i |x-P(x-g)|_i max(1,|x_i|)/max(0.1,|f|) <= pgtol (=tol)
+//          =>  ||x-x*|| <= (1+L)/mu * sqrt(n) pgtol max(0.1,|f|)   [error bound for strongly convex problems],
 //          or (f_k-f_{k+1}) <= factr*epsmch*max(|f_k|,|f_{k+1}|,1): remaining gap <~ cond * that decrease, ||x-x*|| <= sqrt(2 gap/mu).
 //  InteriorPoint: unscaled dual infeasibility, complementarity <= tol, constraint violation <= ctol. With multipliers ~ those of x*:
 //          mu ||d||^2 <= sqrt(n) tol ||d|| + Nc*tol + Lambda*(ctol+relax)   =>  ||d|| <= sqrt(n) tol/mu + sqrt((Nc tol + Lambda (ctol+relax))/mu); factor 3 for the approximations.
@@ -381,7 +382,7 @@ static double tolMinimiser(const Problem& P, const RunCfg& cfg, OptimizerAlgorit
     case LBFGSB: {
         const double factr = cfg.factr > 0 ? cfg.factr : 1e7;
         const double gap = (P.L / P.mu) * factr * 2.220446049250313e-16 * std::max(1.0, fabsRet) + 64 * U * P.absSum(&o.x[0]) * (P.L / P.mu);
-        return 1.01 * (1 + P.L) / P.mu * (sq * cfg.tol + gerr) + 3 * std::sqrt(2 * gap / P.mu) + roundoff;
+        return 1.01 * (1 + P.L) / P.mu * (sq * cfg.tol * std::max(0.1, fabsRet) + gerr) + 3 * std::sqrt(2 * gap / P.mu) + roundoff;
     }
     case InteriorPoint: {
         int nc = P.mi; double relax = 0;
@@ -416,53 +417,100 @@ static void judge(vh::Ctx& c, const Problem& P, const RunCfg& cfg, const RunOut&
     c.obs("runs-returned");
     std::vector<double> xr(n); bool finite = std::isfinite(o.f);
     for (int i = 0; i < n; ++i) { xr[i] = o.x[i]; finite = finite && std::isfinite(xr[i]); }
-    if (!c.require("finite-result:" + an, finite, [&] { return Json::obj().set("f", o.f).set("x", vh::jvec(xr)).set("problem", jprob(P, cfg)); })) return;
+    if (!c.require("finite-result/" + an, finite, [&] { return Json::obj().set("f", o.f).set("x", vh::jvec(xr)).set("problem", jprob(P, cfg)); })) return;
     const bool bounded = P.hasBounds && (alg == LBFGSB || alg == InteriorPoint || alg == CMAES);
     bool atBound = false;
     if (bounded) for (int i = 0; i < n; ++i) atBound = atBound || xr[i] <= P.lb[i] || xr[i] >= P.ub[i];
 
     // truthful f
     const double fre = P.obj(xr.data()), fscale = P.absSum(xr.data());
-    c.check("truthful-f:" + an + ":" + gm + (alg == InteriorPoint && atBound ? ":result-on-bound" : ""), std::fabs(o.f - fre), 4 * (n + 3) * U * fscale + 1e-300, [&] {
-        return Json::obj().set("f_returned", o.f).set("f_at_returned_x", fre).set("x", vh::jvec(xr)).set("problem", jprob(P, cfg)); });
+    {
+        const double tolF = 4 * (n + 3) * U * fscale + 1e-300, gapF = std::fabs(o.f - fre);
+        // Root cause known from IpOrigIpoptNLP.cpp (FinalizeSolution): with honor_original_bounds the final x is projected into the
+        // user's bounds but the objective reported is the one of the unprojected point, which may lie up to
+        // bound_relax_factor*max(1,|bound|) outside. A discrepancy explained by that gets its own key.
+        double explained = 0;
+        if (alg == InteriorPoint && atBound) {
+            std::vector<double> g(n); P.grad(xr.data(), g.data());
+            for (int i = 0; i < n; ++i) if (xr[i] <= P.lb[i] || xr[i] >= P.ub[i]) { const double rl = 1e-8 * std::max(1.0, std::fabs(xr[i])); explained += 1.05 * std::fabs(g[i]) * rl + (P.family == 0 ? P.L : 1e3) * rl * rl; }
+        }
+        if (gapF > tolF && gapF <= tolF + explained)
+            c.viol("truthful-f:InteriorPoint:objective-is-that-of-the-unprojected-point(bound-relaxation)", Json::obj().set("f_returned", o.f).set("f_at_returned_x", fre).set("difference", o.f - fre)
+                   .set("explained_by_relaxation_up_to", explained).set("x", vh::jvec(xr)).set("problem", jprob(P, cfg)));
+        else
+            c.check("truthful-f/" + an + ":" + gm, gapF, tolF, [&] { return Json::obj().set("f_returned", o.f).set("f_at_returned_x", fre).set("x", vh::jvec(xr)).set("problem", jprob(P, cfg)); });
+    }
     if (alg == LBFGS || alg == LBFGSB || alg == CMAES) {
         bool found = false;
         for (const Rec& r : o.log) if (r.kind == 'F' && r.f == o.f && r.x == xr) { found = true; break; }
-        c.require("returned-point-was-evaluated:" + an + ":" + gm, found, [&] { return Json::obj().set("f_returned", o.f).set("x", vh::jvec(xr)).set("evaluations", (long)o.log.size()).set("problem", jprob(P, cfg)); });
+        c.require("returned-point-was-evaluated/" + an + ":" + gm, found, [&] { return Json::obj().set("f_returned", o.f).set("x", vh::jvec(xr)).set("evaluations", (long)o.log.size()).set("problem", jprob(P, cfg)); });
     }
-    // improving
+    // reference minimiser of strictly convex quadratics (certified), used by "improving" (interior point) and "minimiser"
+    RefSol ref;
+    if (P.family == 0 && (alg == LBFGS || alg == LBFGSB || alg == InteriorPoint || alg == CMAES)) {
+        Problem Q = P; if (!(alg == LBFGSB || alg == InteriorPoint || alg == CMAES)) Q.hasBounds = false;
+        if (alg != InteriorPoint) { Q.me = Q.mi = 0; }
+        ref = referenceMinimiser(Q);
+    }
+    // improving. The line-search methods are monotone: no tolerance beyond rounding. The interior-point method is not a
+    // monotone method; what its stopping rule promises is a duality gap <= Nc*tol + Lambda*(ctol+relaxation) (see tolMinimiser),
+    // so a start that is already (nearly) optimal may be left by that much: f_ret <= f(x0) + 2*gap.
     if (alg == LBFGS || alg == LBFGSB || (alg == InteriorPoint && P.x0Feasible)) {
         const double f0 = P.obj(P.x0.data());
-        c.check("improving:" + an + ":" + gm, std::max(0.0, fre - f0), 4 * (n + 3) * U * (fscale + P.absSum(P.x0.data())) + 1e-300, [&] {
-            return Json::obj().set("f_x0", f0).set("f_returned_x", fre).set("problem", jprob(P, cfg)); });
+        double extra = 0; bool judgeIt = true;
+        if (alg == InteriorPoint) {
+            int nc = P.mi; double relax = P.mi + P.me > 0 ? 1e-8 : 0.0, lam = NaN;
+            if (P.hasBounds) for (int i = 0; i < n; ++i) { if (P.lb[i] > -INF) { ++nc; relax = std::max(relax, 1e-8 * std::max(1.0, std::fabs(P.lb[i]))); } if (P.ub[i] < INF) { ++nc; relax = std::max(relax, 1e-8 * std::max(1.0, std::fabs(P.ub[i]))); } }
+            if (ref.ok) lam = (double)ref.lambdaSum;
+            else if (P.me + P.mi == 0) { std::vector<double> g(n); P.grad(xr.data(), g.data()); lam = 0; for (int i = 0; i < n; ++i) lam += std::fabs(g[i]); }   // bound multipliers balance the gradient
+            if (lam == lam) extra = 2 * (nc * cfg.tol + lam * (cfg.ctol + relax) + std::sqrt((double)n) * cfg.tol); else judgeIt = false;
+        }
+        if (judgeIt)
+            c.check("improving/" + an + ":" + gm, std::max(0.0, fre - f0), extra + 4 * (n + 3) * U * (fscale + P.absSum(P.x0.data())) + 1e-300, [&] {
+                return Json::obj().set("f_x0", f0).set("f_returned_x", fre).set("allowed_gap", extra).set("problem", jprob(P, cfg)); });
+        else c.obs("improving-not-judged:no-multiplier-estimate");
     } else if (alg == InteriorPoint) c.obs("improving-not-judged:infeasible-start");
     // numerical mode never calls the analytic derivatives
     if (cfg.gradMode != 0 && alg != CMAES) {
         long ng = 0, nj = 0; for (const Rec& r : o.log) { ng += r.kind == 'G'; nj += r.kind == 'J'; }
-        c.require("analytic-derivative-called-in-numerical-mode:" + an, ng == 0 && nj == 0, [&] { return Json::obj().set("gradient_calls", ng).set("jacobian_calls", nj); });
+        c.require("analytic-derivative-called-in-numerical-mode/" + an, ng == 0 && nj == 0, [&] { return Json::obj().set("gradient_calls", ng).set("jacobian_calls", nj); });
     }
     // bounds
     if (bounded) {
         auto excess = [&](const std::vector<double>& x, int* where) { double w = 0; for (int i = 0; i < n; ++i) { double e = std::max(P.lb[i] - x[i], x[i] - P.ub[i]); if (e > w) { w = e; if (where) *where = i; } } return w; };
         auto slackOf = [&](const std::vector<double>& x) { if (alg != InteriorPoint) return 0.0; double s = 0; for (int i = 0; i < n; ++i) { double e = std::max(P.lb[i] - x[i], x[i] - P.ub[i]); if (e > 0) s = std::max(s, 1.000001e-8 * std::max(1.0, std::fabs(x[i] < P.lb[i] ? P.lb[i] : P.ub[i]))); } return s; };
-        std::map<char, std::pair<double, size_t>> worst;   // per record kind: worst excess/slack-adjusted
+        // In numerical-derivative mode the wrappers (OptimizerRep.cpp) first evaluate at the iterate ("base") and then let a
+        // Differentiator perturb one coordinate at a time by its documented step: classify every logged argument so that an
+        // iterate outside the box and a difference step outside the box get different keys.
+        const double acc = cfg.numAcc > 0 ? cfg.numAcc : (double)SignificantReal;
+        std::map<char, const Rec*> base;
+        struct Worst { double over = -INF; size_t k = 0; };
+        std::map<std::string, Worst> worst;
         for (size_t k = 0; k < o.log.size(); ++k) {
             const Rec& r = o.log[k];
-            double e = excess(r.x, nullptr), s = slackOf(r.x);
-            double over = e - s;
-            auto it = worst.find(r.kind);
-            if (it == worst.end() || over > it->second.first) worst[r.kind] = std::make_pair(over, k);
+            bool perturbation = false;
+            if (cfg.gradMode != 0 && alg != CMAES && (r.kind == 'F' || r.kind == 'C') && base.count(r.kind)) {
+                const Rec& b0 = *base[r.kind]; int nd = 0, di = -1;
+                for (int i = 0; i < n; ++i) if (r.x[i] != b0.x[i]) { ++nd; di = i; }
+                if (nd == 1) { const double h = diffStep(b0.x[di], acc, cfg.gradMode), got = std::fabs(r.x[di] - b0.x[di]); perturbation = std::fabs(got - h) <= 1e-6 * h + 8 * U * std::fabs(b0.x[di]); }
+            }
+            if (!perturbation) base[r.kind] = &r;
+            const char* kn = r.kind == 'F' ? "objective" : (r.kind == 'G' ? "gradient" : (r.kind == 'C' ? "constraints" : "jacobian"));
+            // key of a difference step does not depend on how the algorithm was selected nor on forward/central
+            const std::string key = perturbation ? std::string("eval-outside-bounds/") + algStr(alg) + ":numerical-differentiation-step"
+                                                 : "eval-outside-bounds/" + an + ":" + kn + ":" + gm;
+            const double over = excess(r.x, nullptr) - slackOf(r.x);
+            Worst& w = worst[key]; if (over > w.over) { w.over = over; w.k = k; }
         }
         for (auto& kv : worst) {
-            const Rec& r = o.log[kv.second.second];
-            int wi = 0; double e = excess(r.x, &wi), s = slackOf(r.x);
-            const char* kn = kv.first == 'F' ? "objective" : (kv.first == 'G' ? "gradient" : (kv.first == 'C' ? "constraints" : "jacobian"));
-            c.check("eval-outside-bounds:" + an + ":" + kn + ":" + gm, e, s, [&] {
-                return Json::obj().set("argument", vh::jvec(r.x)).set("component", wi).set("excess", e).set("allowed_relaxation", s).set("evaluation_index", (long)kv.second.second)
+            const Rec& r = o.log[kv.second.k];
+            int wi = 0; double e = excess(r.x, &wi), sl = slackOf(r.x);
+            c.check(kv.first, e, sl, [&] {
+                return Json::obj().set("argument", vh::jvec(r.x)).set("component", wi).set("excess", e).set("allowed_relaxation", sl).set("evaluation_index", (long)kv.second.k)
                     .set("lb_i", P.lb[wi]).set("ub_i", P.ub[wi]).set("problem", jprob(P, cfg)); });
         }
         int wi = 0; double e = excess(xr, &wi);
-        c.check("result-outside-bounds:" + an + ":" + gm, e, 0.0, [&] { return Json::obj().set("x", vh::jvec(xr)).set("component", wi).set("excess", e).set("problem", jprob(P, cfg)); });
+        c.check("result-outside-bounds/" + an + ":" + gm, e, 0.0, [&] { return Json::obj().set("x", vh::jvec(xr)).set("component", wi).set("excess", e).set("problem", jprob(P, cfg)); });
     }
     // constraints (interior point only)
     if (alg == InteriorPoint && P.me + P.mi > 0) {
@@ -472,8 +520,8 @@ static void judge(vh::Ctx& c, const Problem& P, const RunCfg& cfg, const RunOut&
             if (k < P.me) { if (std::fabs(v) - rnd > we) { we = std::fabs(v) - rnd; ke = k; } }
             else if (-v - rnd > wi) { wi = -v - rnd; ki = k; }
         }
-        if (P.me > 0) c.check("constraint-violation:" + an + ":equality:" + gm, we, te * 1.000001 + 1e-8, [&] { return Json::obj().set("row", ke).set("violation", we).set("ctol", cfg.ctol).set("x", vh::jvec(xr)).set("problem", jprob(P, cfg)); });
-        if (P.mi > 0) c.check("constraint-violation:" + an + ":inequality:" + gm, wi, ti * 1.000001 + 1e-8, [&] { return Json::obj().set("row", ki).set("violation", wi).set("ctol", cfg.ctol).set("x", vh::jvec(xr)).set("problem", jprob(P, cfg)); });
+        if (P.me > 0) c.check("constraint-violation/" + an + ":equality:" + gm, we, te * 1.000001 + 1e-8, [&] { return Json::obj().set("row", ke).set("violation", we).set("ctol", cfg.ctol).set("x", vh::jvec(xr)).set("problem", jprob(P, cfg)); });
+        if (P.mi > 0) c.check("constraint-violation/" + an + ":inequality:" + gm, wi, ti * 1.000001 + 1e-8, [&] { return Json::obj().set("row", ki).set("violation", wi).set("ctol", cfg.ctol).set("x", vh::jvec(xr)).set("problem", jprob(P, cfg)); });
     }
     if (c.args.verbose) {
         std::vector<double> g(n); P.grad(xr.data(), g.data());
@@ -483,9 +531,6 @@ static void judge(vh::Ctx& c, const Problem& P, const RunCfg& cfg, const RunOut&
     }
     // unique minimiser of strictly convex quadratics
     if (P.family == 0 && (alg == LBFGS || alg == LBFGSB || alg == InteriorPoint || alg == CMAES)) {
-        Problem Q = P; if (!(alg == LBFGSB || alg == InteriorPoint || alg == CMAES)) Q.hasBounds = false;
-        if (alg != InteriorPoint) { Q.me = Q.mi = 0; }
-        RefSol ref = referenceMinimiser(Q);
         if (!ref.ok) { c.skip("minimiser-reference-not-certified"); }
         else {
             double dist = 0; for (int i = 0; i < n; ++i) dist += (double)((xr[i] - ref.x[i]) * (xr[i] - ref.x[i])); dist = std::sqrt(dist);
@@ -495,7 +540,7 @@ static void judge(vh::Ctx& c, const Problem& P, const RunCfg& cfg, const RunOut&
                 c.obs(gapf <= 10 * cfg.tol * std::max(1.0, std::fabs((double)ref.fstar)) ? "cmaes-gap<=10tol" : (gapf <= 1e3 * cfg.tol * std::max(1.0, std::fabs((double)ref.fstar)) ? "cmaes-gap<=1e3tol" : "cmaes-gap>1e3tol"));
             } else {
                 const double tolm = tolMinimiser(P, cfg, alg, o, ref);
-                c.check("minimiser:" + an + ":" + gm + ":" + (ref.nActive > 0 ? "active-set-nonempty" : "interior") + (alg == LBFGSB ? (cfg.factr > 0 ? ":factr-small" : ":factr-default") : ""), dist, tolm, [&] {
+                c.check("minimiser/" + an + ":" + gm + ":" + (ref.nActive > 0 ? "active-set-nonempty" : "interior") + (alg == LBFGSB ? (cfg.factr > 0 ? ":factr-small" : ":factr-default") : ""), dist, tolm, [&] {
                     std::vector<double> xs(n); for (int i = 0; i < n; ++i) xs[i] = (double)ref.x[i];
                     return Json::obj().set("x", vh::jvec(xr)).set("xstar", vh::jvec(xs)).set("distance", dist).set("bound", tolm).set("f", fre).set("fstar", (double)ref.fstar).set("problem", jprob(P, cfg)); });
             }
